@@ -8,6 +8,7 @@ CONSTANTS
   EndSyms = {FALSE}
   AnnModes = {"none"}
   WithProxyDel = FALSE
+  CfiLayouts = {"none"}
   Emit = FALSE
 INVARIANT Inv
 CHECK_DEADLOCK FALSE
